@@ -64,6 +64,20 @@ def gen_problem(rng, tier="quick", **over):
         values = plant_eval(plant, ksol)
         if kind == "quad" and rng.random() < 0.15:
             values = [v - 1.0 for v in values]      # unattainable (below the minimum)
+    steps = [rng.choice([1e-6, 1e-7, 1e-5]) for _ in range(nk)]
+    if kind == "lin" and family != "lin_inconsistent" and rng.random() < 0.12:
+        # the matched point lies just outside one knob's limit, exactly one (large) Jacobian step away from a start on
+        # that limit, all other knobs already at their solution: the finite-difference probe lands on the solution
+        j = rng.randrange(nk)
+        st = rng.choice([0.05, 0.1, 0.3])
+        steps[j] = st
+        if limits[j] is None:
+            limits[j] = [round(start[j] - 1.0, 2), start[j]]
+        start[j] = limits[j][1]
+        ksol = [start[i] for i in range(nk)]
+        ksol[j] = start[j] + st
+        values = plant_eval(plant, ksol)
+        family = family + "+probe_on_solution"
     unit = rng.random() < 0.6
     spec = {
         "family": family, "nk": nk, "nt": nt, "plant": plant, "start": start, "limits": limits,
@@ -71,7 +85,7 @@ def gen_problem(rng, tier="quick", **over):
         "tweights": [1.0 if rng.random() < 0.6 else rng.choice([0.5, 2.0, 10.0]) for _ in range(nt)],
         "tols": [rng.choice([1e-6, 1e-8, 1e-5, 1e-9]) for _ in range(nt)],
         "values": values,
-        "steps": [rng.choice([1e-6, 1e-7, 1e-5]) for _ in range(nk)],
+        "steps": steps,
         "max_step": [None if rng.random() < 0.6 else rng.choice([0.05, 0.2, 0.5, 1.0]) for _ in range(nk)],
         "tags": ["g%d" % (j % 2) for j in range(nk)],
         "ttags": ["t%d" % (j % 2) for j in range(nt)],
